@@ -305,3 +305,21 @@ func CheckValueAndSharing(pc *PathCtx) {
 	CheckValue(pc)
 	CheckSharing(pc)
 }
+
+// reachRefs collects the slots behind the references a value holds - not the slots the value itself is stored in:
+// for a struct, its fields (and the members of nested structs / arrays stored inline) are walked, pointees,
+// backing arrays and map objects are collected.
+func reachRefs(v engine.Value, set map[*engine.Value]string, path string) {
+	switch v := v.(type) {
+	case engine.Struct:
+		for i := range v {
+			reachRefs(v[i], set, fmt.Sprintf("%s.%d", path, i))
+		}
+	case engine.Array:
+		for i := range v {
+			reachRefs(v[i], set, fmt.Sprintf("%s[%d]", path, i))
+		}
+	default:
+		reach(v, set, path, 0)
+	}
+}
